@@ -117,3 +117,12 @@ package encrypted_leaseset
 //@     assert(destination.PermittedDest(key_certificate.SigType(bd.KeysAndCert.KeyCertificate), key_certificate.CryptoType(bd.KeysAndCert.KeyCertificate)))
 //@   }
 //@ }
+
+// ---- C08: nothing an accepted EncryptedLeaseSet holds points into the caller's buffer.
+//@ lemma C08_EncryptedNoAlias(data []byte) {
+//@   els, _, err := ReadEncryptedLeaseSet(data)
+//@   if err == nil {
+//@     assert(fresh(els.blindedPublicKey) && fresh(els.encryptedInnerData) && fresh(sig.SigData(els.signature)))
+//@     assert(els.offlineSignature == nil || (fresh(offline_signature.OffKey(els.offlineSignature)) && fresh(offline_signature.OffSig(els.offlineSignature))))
+//@   }
+//@ }
